@@ -604,7 +604,7 @@ class Executor:
         outs = [o for o in ra + rb if o.kind != 'fall']
         fa = [o for o in ra if o.kind == 'fall']; fb = [o for o in rb if o.kind == 'fall']
         if fa and fb:
-            m = merge_states(c, fa[0].state, fb[0].state)
+            m = self.merge_states(c, fa[0].state, fb[0].state)
             m.pc = st.pc if not outs else ir.bor_(fa[0].state.pc, fb[0].state.pc)
             outs.append(Outcome('fall', m))
         elif fa:
@@ -612,6 +612,9 @@ class Executor:
         elif fb:
             outs.append(fb[0])
         return outs
+
+    def merge_states(self, c, sa, sb):
+        return merge_states(c, sa, sb)
 
     def s_Match(self, s, st):
         subj = self.ev(s.subject, st)
@@ -861,7 +864,7 @@ def _b_all(ex, st, n, *a):
     raise Unsupported('all()')
 
 
-def merge_outcomes(outs):
+def merge_outcomes(outs, merge_states=merge_states):
     """merge the normal terminations (fall / return) of a function into one state and one value"""
     if not outs:
         return None, None, ir.FALSE
